@@ -16,6 +16,45 @@ use std::sync::Arc;
 pub static NUM_LIVE_CHUNKS: AtomicUsize = AtomicUsize::new(0);
 pub static NUM_LIVE_BYTES: AtomicUsize = AtomicUsize::new(0);
 
+/// Verification hook: registry of the address ranges of live arena chunks.
+///
+/// Only addresses are stored (no pointer or `Arc`), so the registry neither
+/// keeps memory reachable nor hides a leak from a sanitizer.
+#[cfg(woodpile_verif)]
+pub mod verif {
+    use std::collections::BTreeMap;
+    use std::sync::Mutex;
+
+    static LIVE_CHUNKS: Mutex<BTreeMap<usize, usize>> = Mutex::new(BTreeMap::new());
+
+    pub(super) fn register(start: usize, len: usize) {
+        let mut map = LIVE_CHUNKS.lock().unwrap_or_else(|e| e.into_inner());
+        map.insert(start, len);
+    }
+
+    pub(super) fn unregister(start: usize) {
+        let mut map = LIVE_CHUNKS.lock().unwrap_or_else(|e| e.into_inner());
+        map.remove(&start);
+    }
+
+    /// Returns the `(start address, length)` of every live arena chunk.
+    pub fn live_chunks() -> Vec<(usize, usize)> {
+        let map = LIVE_CHUNKS.lock().unwrap_or_else(|e| e.into_inner());
+        map.iter().map(|(k, v)| (*k, *v)).collect()
+    }
+
+    /// Returns the live chunk that fully contains `[addr, addr + len)`, if any.
+    pub fn chunk_containing(addr: usize, len: usize) -> Option<(usize, usize)> {
+        let map = LIVE_CHUNKS.lock().unwrap_or_else(|e| e.into_inner());
+        let (start, size) = map.range(..=addr).next_back()?;
+        if addr.checked_add(len)? <= start + size {
+            Some((*start, *size))
+        } else {
+            None
+        }
+    }
+}
+
 /// Conceptually, [`Chunk`] is a `Box<[u8]>`, but we convert to/from
 /// [`NonNull`] at construction and destruction in order to avoid
 /// aliasing footguns.
@@ -30,6 +69,8 @@ impl Chunk {
         use std::sync::atomic::Ordering;
         NUM_LIVE_CHUNKS.fetch_add(1, Ordering::Relaxed);
         NUM_LIVE_BYTES.fetch_add(storage.len(), Ordering::Relaxed);
+        #[cfg(woodpile_verif)]
+        verif::register(storage.as_ptr() as usize, storage.len());
 
         Chunk {
             storage: NonNull::from(Box::leak(storage)),
@@ -55,6 +96,8 @@ impl Drop for Chunk {
         #[allow(unused_mut)] // needed for test-only memset.
         let mut storage = unsafe { Box::from_raw(self.storage.as_mut()) };
         let capacity = storage.len();
+        #[cfg(woodpile_verif)]
+        verif::unregister(storage.as_ptr() as usize);
 
         #[cfg(debug_assertions)]
         for i in 0..capacity {
